@@ -263,6 +263,72 @@ fn draw64_near(rng: &mut Rng, alpha: f64) -> u64 {
     (k << 11) | rng.below(2048)
 }
 
+// ------------------------------------------------------------------------------------------ exhaustive sweep
+/// 1/rate correctly rounded to binary64 (round to nearest, ties to even), by integer arithmetic only.
+/// rate must be finite and positive. Returns (mantissa in [2^52, 2^53), exponent E) with value = mantissa * 2^E.
+fn exact_inverse(rate: f32) -> (u64, i32) {
+    let bits = rate.to_bits();
+    let be = ((bits >> 23) & 0xff) as i32;
+    let (m, e) = if be == 0 { ((bits & 0x7f_ffff) as u128, -149) } else { (((bits & 0x7f_ffff) | 0x80_0000) as u128, be - 150) };
+    // 1/rate = 2^-e / m; take k with 2^k / m having 55 or 56 bits
+    let bl = 128 - m.leading_zeros() as i32;
+    let k = bl + 55;
+    let q = (1u128 << k) / m;
+    let sticky = (1u128 << k) % m != 0;
+    let qb = 128 - q.leading_zeros() as i32;
+    let mut shift = qb - 53;
+    let mut mant = (q >> shift) as u64;
+    let rem = q & ((1u128 << shift) - 1);
+    let half = 1u128 << (shift - 1);
+    if rem > half || (rem == half && (sticky || mant & 1 == 1)) {
+        mant += 1;
+        if mant == 1 << 53 { mant >>= 1; shift += 1; }
+    }
+    (mant, shift - k - e)
+}
+/// the (n, alpha) the specification prescribes for an inverse below 2^53, from the exact inverse
+fn expected_split(mant: u64, e: i32) -> Option<(u64, u64)> {
+    if e >= 0 || e < -52 { return None; }
+    let sh = (-e) as u32;
+    let n = mant >> sh;
+    let frac = mant & ((1u64 << sh) - 1);
+    let num = (1u64 << sh) - frac; // alpha = num * 2^e, exactly representable (num <= 2^52)
+    let alpha = (num as f64) * f64::from_bits(((1023 + e) as u64) << 52);
+    Some((n, alpha.to_bits()))
+}
+/// Every f32 rate with exponent in [lo_exp, 0]: the real rate_to_n_alpha against integer arithmetic.
+fn sweep_all_rates(lo_exp: i32, threads: u32) -> (u64, Vec<u32>) {
+    let first = p2(lo_exp).to_bits();
+    let last = 1.0f32.to_bits();
+    let total = (last - first + 1) as u64;
+    let chunk = (total + threads as u64 - 1) / threads as u64;
+    let mut bad: Vec<u32> = vec![];
+    std::thread::scope(|sc| {
+        let hs: Vec<_> = (0..threads).map(|t| {
+            sc.spawn(move || {
+                let lo = first as u64 + t as u64 * chunk;
+                let hi = (lo + chunk).min(last as u64 + 1);
+                let mut bad = vec![];
+                for b in lo..hi {
+                    let rate = f32::from_bits(b as u32);
+                    let (mant, e) = exact_inverse(rate);
+                    let (n, alpha) = verif_rate_to_n_alpha(rate);
+                    let inv_bits = (((1023 + 52 + e) as u64) << 52) | (mant & ((1 << 52) - 1));
+                    let ok = match expected_split(mant, e) {
+                        Some((en, ea)) => n == en && alpha.to_bits() == ea,
+                        // integer inverse (>= 2^52): n is the inverse itself, alpha is whatever (n+1) as f64 - inv gives
+                        None => e >= 0 && (n as u128) == (mant as u128) << e && alpha == ((n + 1) as f64 - f64::from_bits(inv_bits)),
+                    };
+                    if !ok && bad.len() < 10 { bad.push(b as u32); }
+                }
+                bad
+            })
+        }).collect();
+        for h in hs { bad.extend(h.join().unwrap()); }
+    });
+    (total, bad)
+}
+
 // ------------------------------------------------------------------------------------------ congressional histories
 type Group = Vec<(u64, u64)>;
 fn group_strings(g: &Group) -> Vec<(String, String)> {
@@ -491,6 +557,18 @@ pub fn run(ctx: &Ctx) {
         outd.count("pipeline");
         do_case(&mut outd, sx::tag(6, vec![sx::n(rate.to_bits()), sx::n(u1), sx::n(draw64_near(&mut rng, alpha)),
             Sx::L(kinds.iter().map(|m| Sx::L(m.iter().map(enc_kind).collect())).collect())]), true);
+    }
+
+    // ---- every f32 rate: the implementation's (n, alpha) against correctly rounded integer arithmetic
+    {
+        let lo = -63;
+        let t0 = std::time::Instant::now();
+        let (total, bad) = sweep_all_rates(lo, 8);
+        outd.add("sweep_every_f32_rate_in_range", total);
+        outd.notes.push(format!("exhaustive sweep of all {total} f32 rates in [2^{lo}, 1]: rate_to_n_alpha of the implementation equals (floor(inv), floor(inv)+1-inv) for inv = 1/rate correctly rounded by integer arithmetic ({} mismatches, {:.1} s)", bad.len(), t0.elapsed().as_secs_f64()));
+        for b in bad {
+            outd.fail("rate_to_n_alpha differs from the exact split of the correctly rounded inverse rate".into(), &sx::tag(2, vec![sx::n(b)]));
+        }
     }
 
     // ---- congressional histories
